@@ -29,6 +29,9 @@ impl Check for C03 {
             run::<f64>(src, obs)
         }
     }
+    fn regressions(&self) -> Vec<(&'static str, fn() -> Result<(), Fail>)> {
+        vec![("d1-right-notaknot-row", super::regress::d1_notaknot_right)]
+    }
     fn rule(&self) -> String {
         "random spline data sets (n = 3, 4, 5..12 weighted, up to 40; axis classes with mesh ratio <= 2^6; 0..3 trailing \
          axes; value classes small-int/dyadic/full-mantissa; f64 80% / f32) with every boundary selection: NotAKnot, Natural, \
